@@ -1,5 +1,6 @@
 """C02 — polyhedron operations compute exactly the documented point set."""
 from . import poly_common as pc
+from . import c02_rows
 LEVEL = "proof"
 
 
@@ -9,6 +10,7 @@ def run(ctx):
     quick = ctx.tier == "quick"
     if not quick:
         broken += ctx.leanchecker(["PPLV.Props.C02"])
+    broken += c02_rows.run(ctx)            # stage 2: the row-level implementations (proof + raw-row correspondence)
     pc.run_poly(ctx, ops="all", n_hist=1000 if quick else 30000, length=10 if quick else 24,
                 maxdim=3 if quick else 4, observe_always=True, tag="all operators")
     # focused batches: the predicate-valued variants and the relation-judged operators on
